@@ -40,7 +40,7 @@ TRUSTED_BASE = [
 ASSUMPTIONS = [
     "data values are None/bool/int/str/list/dict with string keys; strings contain no quotes or backslashes (repr is modelled literally)",
     "a bare `forloop` object is never printed, copied or iterated (the model keeps the drop as the mapping of its 9 keys)",
-    "filters, limit/offset/reversed, break/continue, tablerow, autoescape, LAX/WARN modes and resource limits other than context_depth_limit are outside this model",
+    "filters, limit/offset/reversed, break/continue, tablerow cols, block.super, required blocks, autoescape, LAX/WARN modes and resource limits other than context_depth_limit are outside this model",
     "the name `partial` is a block-scope variable pushed by every template (False at top level, True in partials): it shadows assignments; mirrored, not judged",
 ]
 MANIFEST = {
@@ -398,5 +398,26 @@ class TablerowStream(Stream):
         return []
 
 
+class InheritStream(NestStream):
+    """extends / block around the binding constructs: overriding blocks read the base template's scope, assign into a
+    scope of their own, render / call / include from there; StopRender skips the rest of the leaf."""
+
+    name = "inherit"
+
+    def cases(self, ctx):
+        rng = ctx.rng_for("inherit")
+        return [scopegen.gen_inherit(rng.fork(f"h{i}")) for i in range(ctx.scale(1200, 12000))]
+
+    def nontrivial(self, case, obs):
+        return "ok" in obs and any(n[0] == "block" for body in case["partials"].values() for n in scopegen.walk(body))
+
+    def tags(self, case, obs):
+        t = ["ok" if "ok" in obs else obs["err"]]
+        t.append("leaf=" + ("main" if "leaf" not in case["partials"] else case["main"][-5][0] if len(case["main"]) >= 5 else "partial"))
+        if "mid" in case["partials"]:
+            t.append("3-level")
+        return t
+
+
 def streams(ctx):
-    return [OrderStream(), TablerowStream(), PathStream(), PathRandomStream(), NestStream()]
+    return [OrderStream(), TablerowStream(), PathStream(), PathRandomStream(), NestStream(), InheritStream()]
